@@ -12,18 +12,24 @@
 (*  "cps"  the per-code-point sweep: str path against UTF-8 bytes path                       *)
 (*  "raw"  invalid / truncated input: nothing the property states applies; the clauses here  *)
 (*         are named beyond.* and are reported as DIVERGENCE, never as a violation           *)
+(*  "switch" ONE process, ONE byte string (same = "bytes": tr.raw) or ONE str (same = "str"), *)
+(*         several encodings: views = sequence of [enc, mode, chars], the text that input is  *)
+(*         under each encoding.  An event op = "setenc" is a real urwid.set_encoding(enc)     *)
+(*         call and makes views[v] the active one (state variable cur); every other event is  *)
+(*         a "text" / "enc" event recorded after it and is judged, by the very same clauses,  *)
+(*         against the view that is active at that point of the history.                      *)
 EXTENDS StrUtilOps, Json, IOUtils, TLC
 
 Traces == JsonDeserialize(IOEnv.TRACE_FILE)
-VARIABLES tid, l, ok, why
-vars == <<tid, l, ok, why>>
+VARIABLES tid, l, ok, why,
+          cur       \* "switch" traces: the view selected by the last set_encoding event (0: none yet)
+vars == <<tid, l, ok, why, cur>>
 
-Init == tid \in 1..Len(Traces) /\ l = 0 /\ ok = TRUE /\ why = "-"
+Init == tid \in 1..Len(Traces) /\ l = 0 /\ ok = TRUE /\ why = "-" /\ cur = 0
 
 Spaces(n) == [k \in 1..n |-> 32]
 RECURSIVE SumSeq(_)
 SumSeq(q) == IF q = <<>> THEN 0 ELSE Head(q) + SumSeq(Tail(q))
-AllBytes(cs) == Flat([k \in 1..Len(cs) |-> cs[k].enc])
 
 \* ------------------------------------------------------------------ calc_width
 VWidth(cs, e) ==
@@ -153,15 +159,36 @@ VRaw(tr, e) ==
          [] e.op = "wide" -> "-"
          [] OTHER -> "no_action"
 
-Verdict(tr, e) ==
+\* ------------------------------------------------------------------ one input under alternating encodings
+\* c = the view selected by the last set_encoding of this history.  "no_action": the harness recorded something that is
+\* not a history of this kind (a view that is not of the named encoding / not the same bytes, a call before any set_encoding)
+VSwitch(tr, e, c) ==
+  IF e.op = "setenc"
+  THEN IF e.v < 1 \/ e.v > Len(tr.views) THEN "no_action"
+       ELSE LET vw == tr.views[e.v] IN
+            IF vw.enc # e.enc \/ vw.mode # EncodingMode(e.enc) THEN "no_action"
+            ELSE IF tr.same = "bytes" /\ AllBytes(vw.chars) # tr.raw THEN "no_action"
+            ELSE IF e.exc # "" THEN "no_result_for_valid_text.setenc"
+            ELSE IF e.got # vw.mode THEN "encoding_mode_follows_set_encoding"
+            ELSE "-"
+  ELSE IF c = 0 THEN "no_action"
+  ELSE IF e.op = "enc" THEN VEnc(tr.views[c], e)
+  ELSE VText(tr.views[c], e)
+
+Verdict(tr, e, c) ==
   CASE tr.kind = "text" -> VText(tr, e)
     [] tr.kind = "enc" -> VEnc(tr, e)
     [] tr.kind = "cps" -> VCp(e)
     [] tr.kind = "raw" -> VRaw(tr, e)
+    [] tr.kind = "switch" -> VSwitch(tr, e, c)
     [] OTHER -> "no_action"
 
 Step == /\ ok /\ l < Len(Traces[tid].ev) /\ l' = l + 1 /\ tid' = tid
-        /\ LET v == Verdict(Traces[tid], Traces[tid].ev[l + 1]) IN why' = v /\ ok' = (v = "-")
+        /\ LET tr == Traces[tid]
+               e == tr.ev[l + 1]
+               v == Verdict(tr, e, cur)
+           IN /\ why' = v /\ ok' = (v = "-")
+              /\ cur' = IF tr.kind = "switch" /\ e.op = "setenc" THEN e.v ELSE cur
 Spec == Init /\ [][Step]_vars
 Report == ok \/ PrintT(<<"REJECT", tid, l, why>>)
 =============================================================================
